@@ -1,6 +1,8 @@
 package main
 
 import (
+	"bytes"
+	crand "crypto/rand"
 	"encoding/binary"
 	"encoding/json"
 	"fmt"
@@ -18,6 +20,7 @@ import (
 
 	"github.com/lidofinance/dc4bc/client/api/dto"
 	ctypes "github.com/lidofinance/dc4bc/client/types"
+	"github.com/lidofinance/dc4bc/fsm/types/responses"
 )
 
 func init() {
@@ -255,6 +258,23 @@ func runC11(c *Ctx, n, t int, tag string, dv c11Dev) c11Obs {
 						enc := kyberEncryptDeal(inst.GetSecKey(), g.GetConfig().NewNodes, dv.Victim, &bad)
 						plain, _ := json.Marshal(signedDkgDeal(inst.GetSecKey(), dv.Dealer, enc))
 						ct, _ = ecies.Encrypt(c04Suite, cl.Machines[dv.Victim].GetPubKey(), plain, c04Suite.Hash)
+					case "wrong-threshold", "wrong-session":
+						// the dealer's genuine deal for the victim (share and commitments as broadcast) with
+						// a threshold or a session identifier that is not this round's
+						g := inst.VerifInstance()
+						pd, e := g.GetDealer().PlaintextDeal(dv.Victim)
+						if e != nil {
+							panic(e)
+						}
+						bad := *pd
+						if dv.Kind == "wrong-threshold" {
+							bad.T = pd.T + 1
+						} else {
+							bad.SessionID = bytes.Repeat([]byte{0x5a}, len(pd.SessionID))
+						}
+						enc := kyberEncryptDeal(inst.GetSecKey(), g.GetConfig().NewNodes, dv.Victim, &bad)
+						plain, _ := json.Marshal(signedDkgDeal(inst.GetSecKey(), dv.Dealer, enc))
+						ct, _ = ecies.Encrypt(c04Suite, cl.Machines[dv.Victim].GetPubKey(), plain, c04Suite.Hash)
 					}
 					req["Deal"], _ = json.Marshal(ct)
 					m.Data, _ = json.Marshal(req)
@@ -306,7 +326,7 @@ func runC11(c *Ctx, n, t int, tag string, dv c11Dev) c11Obs {
 func scenarioC11(c *Ctx) {
 	type cfg struct{ n, t int }
 	cfgs := []cfg{{3, 2}}
-	kinds := []string{"honest", "bc-all", "bc-first", "bc-last", "bc-short", "bc-empty", "bc-long", "wrong-key", "truncated-9", "truncated-tail", "truncated-60", "garbled", "not-a-deal", "null-deal", "share-off-polynomial", "higher-degree", "claims-own-index", "empty", "complaint"}
+	kinds := []string{"honest", "bc-all", "bc-first", "bc-last", "bc-short", "bc-empty", "bc-long", "wrong-key", "truncated-9", "truncated-tail", "truncated-60", "garbled", "not-a-deal", "null-deal", "share-off-polynomial", "wrong-threshold", "wrong-session", "higher-degree", "claims-own-index", "empty", "complaint"}
 	if !c.Quick() {
 		cfgs = []cfg{{3, 2}, {2, 2}, {4, 3}, {4, 4}, {5, 3}}
 	}
@@ -339,7 +359,8 @@ func scenarioC11(c *Ctx) {
 			}
 		}
 	}
-	c.Notes["ceremonies"] = runs
+	c11Reinit(c)
+	c.Notes["ceremonies"] = runs + 1
 }
 
 func c11Judge(c *Ctx, n, t int, dv c11Dev, o c11Obs) {
@@ -352,7 +373,7 @@ func c11Judge(c *Ctx, n, t int, dv c11Dev, o c11Obs) {
 	switch dv.Kind {
 	case "wrong-key", "truncated-9", "truncated-tail", "truncated-60", "garbled", "empty":
 		fault = "undecryptable"
-	case "not-a-deal", "null-deal":
+	case "not-a-deal", "null-deal", "wrong-threshold", "wrong-session":
 		fault = "malformed"
 	}
 	anyRefuse := false
@@ -532,4 +553,98 @@ func signedDkgDeal(long kyber.Scalar, dealer int, enc *vssPedersen.EncryptedDeal
 		panic(err)
 	}
 	return d
+}
+
+// c11Reinit: the reinitialisation path of the addressee's check.  The operations of an honestly played
+// round, as the victim's machine saw them, are replayed by a fresh machine (same mnemonic) inside one
+// reinit operation - once as they were (control) and once with the last dealer's private deal for the
+// victim taken from ANOTHER polynomial than the one whose commitments the dealer broadcast.  The normal
+// flow refuses that deal; the reinitialisation must not build a key share from it.
+func c11Reinit(c *Ctx) {
+	n, t := 3, 2
+	tag := "c11-reinit"
+	cl := NewCluster(newEnvDir(c), n, t, tag)
+	defer cl.Close()
+	cl.Propose(0)
+	victim, dealer := 0, n-1
+	var ops []ctypes.Operation
+	cl.RunToQuiescenceWith(func(cands []int) int { return 0 }, func(i int, o *ctypes.Operation) (bool, error) {
+		if i == victim && string(o.Type) != "state_sig_proposal_await_participants_confirmations" {
+			ops = append(ops, *o)
+		}
+		_, err := cl.Answer(i, o)
+		return true, err
+	})
+	rep := map[string]interface{}{"n": n, "t": t, "dealer": dealer, "victim": victim, "path": "reinit"}
+	harnessFail := func(what string) {
+		c.Fail(Failure{Property: "C11", Kind: "probe-failed", Signature: map[string]interface{}{"kind": "probe-failed"}, What: "harness: " + what, Replay: rep})
+	}
+	if len(ops) != 4 || string(ops[2].Type) != opResponses {
+		harnessFail(fmt.Sprintf("the victim saw %d operations", len(ops)))
+		return
+	}
+	inst := cl.Machines[dealer].VerifDKGInstance(cl.Round)
+	g := inst.VerifInstance()
+	gen2, err := dkgPedersen.NewDistKeyGenerator(c04Suite, inst.GetSecKey(), g.GetConfig().NewNodes, t, crand.Reader)
+	if err != nil {
+		harnessFail(err.Error())
+		return
+	}
+	pd, err := gen2.GetDealer().PlaintextDeal(victim)
+	if err != nil {
+		harnessFail(err.Error())
+		return
+	}
+	pd.SessionID = g.GetDealer().SessionID() // names the broadcast polynomial's session
+	deals2, err := gen2.Deals()
+	if err != nil {
+		harnessFail(err.Error())
+		return
+	}
+	dealBz, _ := json.Marshal(deals2[victim])
+	enc, _ := ecies.Encrypt(c04Suite, cl.Machines[victim].GetPubKey(), dealBz, c04Suite.Hash)
+	var dealsPayload responses.DKGProposalDealParticipantResponse
+	json.Unmarshal(ops[2].Payload, &dealsPayload)
+	for _, e := range dealsPayload {
+		if e.ParticipantId == dealer {
+			e.DkgDeal = enc
+		}
+	}
+	bad := ops[2]
+	bad.Payload, _ = json.Marshal(dealsPayload)
+	run := func(label string, inner []ctypes.Operation) (string, bool) {
+		B := NewCluster(newEnvDir(c), n, t, tag) // fresh machines, same mnemonics
+		defer B.Close()
+		payload, _ := json.Marshal(inner)
+		op := ctypes.Operation{ID: "c11-reinit-" + label, Type: ctypes.OperationType(ctypes.ReinitDKG), DKGIdentifier: cl.Round, Payload: payload, CreatedAt: ops[0].CreatedAt}
+		ev := "PANIC"
+		func() {
+			defer func() { recover() }()
+			res, err := B.Machines[victim].GetOperationResult(op)
+			if err != nil {
+				ev = "refused: " + firstLine(err.Error())
+			} else {
+				ev = string(res.Event)
+			}
+		}()
+		krs, _ := B.Machines[victim].GetBLSKeyrings()
+		return ev, krs[cl.Round] != nil
+	}
+	ev, has := run("control", ops)
+	c.Case("reinit-control", false, "skip reinit-control", "skip reinit-control")
+	if ev != string(ctypes.OperationProcessed) || !has {
+		harnessFail("the reinitialisation of the consistent log ends with " + ev)
+		return
+	}
+	ev, has = run("other-polynomial", []ctypes.Operation{ops[0], ops[1], bad, ops[3]})
+	c.Case("reinit-other-polynomial", false, "skip reinit-other-polynomial", "skip reinit-other-polynomial")
+	rep["deviation"] = "reinit-other-polynomial"
+	if ev == string(ctypes.OperationProcessed) {
+		c.Fail(Failure{Property: "C11", Kind: "reinit-swallows-refusal", Signature: map[string]interface{}{"kind": "reinit-swallows-refusal", "deviation": "reinit-other-polynomial"},
+			What: "the reinit operation ends with " + ev + " although the victim's private deal contradicts its dealer's broadcast commitments (the normal flow refuses it)", Replay: rep})
+	}
+	if has {
+		c.Fail(Failure{Property: "C11", Kind: "share-stored", Signature: map[string]interface{}{"kind": "share-stored", "deviation": "reinit-other-polynomial"},
+			What: "the victim's machine stores a key share for the round although a replayed deal was inconsistent", Replay: rep})
+	}
 }
